@@ -147,7 +147,13 @@ theorem inputOutputCoinsProv_cases (w : World) (l : Ledger) (ins outs : List IO)
             | .error e => .error e
             | .ok credits => .ok (creditAll l1 credits) := by
       unfold inputOutputCoinsProv
-      simp [List.isEmpty_iff, hi, ho, hm']
+      simp only [List.isEmpty_iff, hi, ho, if_false, gt_iff_lt, Bool.and_eq_true, decide_eq_true_eq, hm']
+      cases validateInputsOutputs ins outs with
+      | error e => rfl
+      | ok u =>
+        cases debitPhase w l ins with
+        | error e => rfl
+        | ok l1 => cases restrictAll w (pairs ins outs) <;> rfl
     cases hv : validateInputsOutputs ins outs with
     | error e =>
       left
@@ -169,6 +175,7 @@ theorem inputOutputCoinsProv_cases (w : World) (l : Ledger) (ins outs : List IO)
         right
         refine ⟨hwf.mpr ⟨⟨hi, ho, hm⟩, hv, l1, hd⟩, l1, rfl, ?_⟩
         rw [hshape, hv]
+        simp only [hd]
   · left
     have hm' : 1 < ins.length ∧ 1 < outs.length := by omega
     refine ⟨?_, .manyToMany, by simp [inputOutputCoinsProv, List.isEmpty_iff, hi, ho, hm'], by simp, by simp⟩
@@ -406,6 +413,47 @@ theorem spec_refused (env : Cfg) (c : LaterCfg) (locked : Addr → Denom → Int
         obtain ⟨i, hi, hie⟩ := pairs_payer ins outs p hp
         have := (appLater_none_iff c p.1 p.2.1 p.2.2).mp hnone
         rw [← hie, hns i hi] at this; cases this
+
+/-- The world the correspondence driver builds for a `bankx` line is an `appWorld`, so the three theorems
+above are about exactly the model run that is compared with the real keeper. -/
+theorem bankx_world_is_appWorld (x : CaseX) :
+    x.world = appWorld x.env x.laterCfg x.locked (fun _ => true) := rfl
+
+/-! ### a plain send is the one-input one-output multi-send -/
+
+/-- **SendCoins of a non-empty coin list is InputOutputCoinsProv with that one input and one output**
+(the same error or literally the same ledger), so `spec_rejected` / `spec_performed` / `spec_refused`
+speak about plain sends too (`bankx … via=send` is checked against the same specification).  For the
+empty list `SendCoins` succeeds trivially while `Input.ValidateBasic` refuses it. -/
+theorem sendCoins_as_single_multiSend (w : World) (l : Ledger) (f t : Addr) (amt : Coins) (hne : amt ≠ []) :
+    sendCoins w l f t amt = inputOutputCoinsProv w l [⟨f, amt⟩] [⟨t, amt⟩] := by
+  have hsm : sumsMatch [⟨f, amt⟩] [⟨t, amt⟩] = true := by simp [sumsMatch, sumCoins]
+  have hemp : amt.isEmpty = false := by
+    cases amt with
+    | nil => exact absurd rfl hne
+    | cons _ _ => rfl
+  rw [sendCoins_eq]
+  unfold inputOutputCoinsProv validateInputsOutputs
+  by_cases hv : isValid amt = true
+  · have hfs := fundsSuffice_merged w l f amt amt hv (fun _ => rfl) (allPos_of_isValid hv)
+    simp only [List.isEmpty_cons, Bool.false_eq_true, if_false, List.length_cons, List.length_nil, Nat.zero_add,
+      gt_iff_lt, Nat.lt_irrefl, decide_false, Bool.and_false, List.all_cons, List.all_nil, ioValid, hv, hemp,
+      Bool.not_false, Bool.and_true, Bool.not_true, hsm, if_true, debitPhase_single, ← hfs]
+    by_cases hf : fundsSuffice w l f amt = true
+    · simp only [hf, if_true, pairs, List.map_cons, List.map_nil, restrictAll, applyRestriction]
+      cases MkrSend.decide (pairCfg w.env f t) amt with
+      | error r => rfl
+      | ok u =>
+        cases w.later f t amt with
+        | none => rfl
+        | some t' => rfl
+    · simp only [hf, Bool.false_eq_true, if_false]
+  · simp only [List.isEmpty_cons, Bool.false_eq_true, if_false, List.length_cons, List.length_nil, Nat.zero_add,
+      gt_iff_lt, Nat.lt_irrefl, decide_false, Bool.and_false, List.all_cons, List.all_nil, ioValid, hv,
+      Bool.false_and, Bool.not_false, if_true]
+
+/-- e.g. the send of `exWorld`'s example is the one-pair multi-send -/
+example : ([("rs", (3 : Int)), ("usd", 5)] : Coins) ≠ [] := by simp
 
 /-! ### Non-vacuity: each outcome occurs -/
 
